@@ -2,6 +2,7 @@
 # confirm_seeded.sh <name> <worktree>: confirm a seeded change independently, then store it under /verif/seeded/<name>/
 #   1. demo.py FAILS (exit 1) with the change, 2. PASSES (exit 0) without it, 3. the unedited test suite passes with it.
 set -u
+export OMP_NUM_THREADS=1 OPENBLAS_NUM_THREADS=1 MKL_NUM_THREADS=1
 name=$1; wt=$2; out=/verif/seeded/$name
 mkdir -p $out
 cd $wt || exit 2
